@@ -119,7 +119,8 @@ pub fn run(tier: Tier, seed: u64) -> i32 {
     let sp = Spec { id: "C09", rule: RULE, tape_len: 320, cases: tier.pick(60_000, 600_000), gen: gen_case, check, max_shrink_iters: 3000, shards: 16 };
     let mut stats = engine::run_spec(&sp, tier, seed);
     engine::run_regressions::<Case>("C09", check, &mut stats);
-    engine::finish("C09", tier, seed, RULE, stats, t0, serde_json::json!({}), &["Feynman parameters read from the crate's debug log (checked by C07)", "brute-force 2-forest enumeration as oracle for F (all terms non-negative)", "tolerance 1000*eps*kappa*c_V with kappa, c_V computed exactly"])
+    let extra = super::fuzzrun::maybe_fuzz("C09", "sampling", tier, seed, &mut stats, serde_json::json!({}));
+    engine::finish("C09", tier, seed, RULE, stats, t0, extra, &["Feynman parameters read from the crate's debug log (checked by C07)", "brute-force 2-forest enumeration as oracle for F (all terms non-negative)", "tolerance 1000*eps*kappa*c_V with kappa, c_V computed exactly"])
 }
 pub fn replay(path: &str) -> i32 {
     engine::replay_file::<Case>("C09", path, check)
